@@ -166,11 +166,22 @@ def corpus():
 def jitter_ref(rnd, t, md, domain):
     times = sorted({x for e in t["es"] for x in e[:-1]})
     out = set()
+    ulps = set()
+    # one time in ten (decimal domain) EVERY reference time is the boundary itself, a float a few ulps beside it, or far
+    # away: adjustments far below the 1e-9 of the library's tolerant equality must still be made
+    # (round 3, C14-v2: alignBoundariesAcrossTiers skipped a tier that "did not change" under ==)
+    tiny = domain == "dec" and rnd.random() < 0.1
     for x in times:
-        k = rnd.choice(["same", "half", "exact", "over", "none", "equi"])
+        k = rnd.choice(["same", "ulp", "ulp", "none"]) if tiny else rnd.choice(["same", "half", "exact", "over", "none", "equi"])
         s = rnd.choice([-1, 1])
         if k == "same":
             out.add(x)
+        elif k == "ulp":
+            import math
+            y = x
+            for _ in range(rnd.randint(1, 3)):
+                y = math.nextafter(y, s * math.inf)
+            ulps.add(y)
         elif k == "half":
             out.add(x + s * md / 2)
         elif k == "exact":
@@ -184,7 +195,7 @@ def jitter_ref(rnd, t, md, domain):
         out.add(rnd.choice(T.gen_times(rnd, domain, 1) or [1.0]))
     ts = sorted(x for x in out if x >= 0)
     if domain == "dec":
-        ts = sorted({round(x, 6) for x in ts})
+        ts = sorted({round(x, 6) for x in ts} | {y for y in ulps if y >= 0})
     if rnd.random() < 0.5 or len(ts) < 2:
         return {"k": "P", "name": "R", "es": [[x, "r"] for x in ts], "lo": 0.0, "hi": max([12.0] + ts)}
     es = [[ts[i], ts[i + 1], "r"] for i in range(0, len(ts) - 1, 2)]
